@@ -4,13 +4,13 @@ SPEC = {
     "translators": ["gen_tracking"],
     "bins": ["c17", "c17m"],
     "model_targets": ["Scanner/TrackingCheck.vo", "Scanner/SnippetsCheck.vo"],
-    "proof_targets": ["Scanner/PrivIterProofs.vo", "Scanner/TrackingProofs.vo", "Scanner/ResultsProofs.vo", "Scanner/SnippetsProofs.vo"],
+    "proof_targets": ["Scanner/PrivIterProofs.vo", "Scanner/TrackingProofs.vo", "Scanner/ResultsProofs.vo", "Scanner/SnippetsProofs.vo", "Scanner/MatchesIterProofs.vo"],
     "assumptions": [
         "rule conditions are abstracted to a verdict function of (rule id, rule bitmap); the theorems hold for every such function",
         "the order in which emitted code evaluates rules (ascending id, namespace blocks left on a failing global rule) is modelled by hand and tied to the code by K",
         "memory safety of the bitmap accesses is not modelled",
     ],
-    "trusted_base": ["Gen/TrackingGen.v: iterator length formulas and the rule_no_match call policy, regenerated from lib/src/scanner/mod.rs and lib/src/wasm/builder.rs"],
+    "trusted_base": ["Gen/TrackingGen.v: iterator length formulas and the rule_no_match call policy, regenerated from lib/src/scanner/mod.rs and lib/src/wasm/builder.rs; the shape of Matches::next / Matches::len / Pattern::matches regenerated from lib/src/models.rs"],
 }
 
 RULE = ("rule sets with 1-4 namespaces, 0-25 rules each, random global/private flags, constant conditions and references to "
